@@ -31,7 +31,7 @@ class Unit:
     def __init__(self, name, tu, harness, enforce=None, replace=(), shape="U", props=(), loops=False,
                  unwind=None, unwindset=(), defs=(), covers=0, timeout=(300, 1800), mem=16, tiers=("quick", "thorough"),
                  bound=None, tdefs=None, funcs=None, expect_loop_obligations=0, rec=False, extra_cbmc=(), note="",
-                 safety_props=None, no_contract=False, nondet_static=False, tunwind=None, checks_off=(), bounded_loops=(), object_bits=8, slice_formula=True):
+                 safety_props=None, no_contract=False, nondet_static=False, tunwind=None, checks_off=(), bounded_loops=(), object_bits=8, slice_formula=True, ignore_desc=()):
         self.name = name; self.tu = tu; self.harness = harness; self.enforce = enforce
         self.replace = list(replace); self.shape = shape; self.props = list(props); self.loops = loops
         self.unwind = unwind; self.unwindset = list(unwindset); self.defs = list(defs); self.covers = covers
@@ -47,6 +47,7 @@ class Unit:
         self.checks_off = list(checks_off)      # checks disabled for this unit, with the reason in `note`
         self.bounded_loops = list(bounded_loops)  # S/B units: regexes of unwinding assertions that ARE the stated bound
         self.object_bits = object_bits; self.slice_formula = slice_formula
+        self.ignore_desc = list(ignore_desc)    # obligation classes that are not claims here (reason in `note`); listed in the evidence
         self.entry = "h_" + name
 
 def make_scratch():
@@ -92,7 +93,7 @@ def run_unit(u, scratch, tier="quick", use_cache=True, keep=False):
     if rc != 0:
         res["reason"] = "preprocess failed: " + err[-2000:]
         return _finish(res, t0, work, keep)
-    flags = json.dumps([u.entry, u.enforce, u.replace, u.loops, unwind, u.unwindset, u.rec, u.extra_cbmc, CBMC_CHECKS, u.checks_off, u.object_bits, u.slice_formula, u.no_contract, u.nondet_static, u.covers])
+    flags = json.dumps([u.entry, u.enforce, u.replace, u.loops, unwind, u.unwindset, u.rec, u.extra_cbmc, CBMC_CHECKS, u.checks_off, u.object_bits, u.slice_formula, u.ignore_desc, u.no_contract, u.nondet_static, u.covers])
     pre_n = re.sub(r'^# \d+ "[^"]*".*$', "", _norm(pre, scratch), flags=re.M)
     key = hashlib.sha256((pre_n + flags).encode()).hexdigest()
     cpath = os.path.join(CACHE, key + ".json")
@@ -147,8 +148,13 @@ def run_unit(u, scratch, tier="quick", use_cache=True, keep=False):
         rc_l, out_l, err_l, _ = sh(["goto-instrument", "--show-loops", cur], 120)
         for lid in sorted(set(re.findall(r"Loop (__CPROVER_contracts_\S+?):", out_l))):
             lib.append(lid + ":80")
-    if u.unwindset or lib:
-        cmd += ["--unwindset", ",".join(list(u.unwindset) + lib)]
+    uws = list(u.unwindset)
+    if u.enforce and not u.no_contract:
+        # dfcc renames the enforced function: its loops are called <f>_wrapped_for_contract_checking.N
+        uws = uws + [w.replace(u.enforce + ".", u.enforce + "_wrapped_for_contract_checking.", 1) for w in u.unwindset if w.startswith(u.enforce + ".")]
+        uws = [w for w in uws if not (w.startswith(u.enforce + ".") )]
+    if uws or lib:
+        cmd += ["--unwindset", ",".join(uws + lib)]
     cmd += u.extra_cbmc
     res["checker_cmd"] = " ".join(c if c != cur else "<unit>.gb" for c in cmd)
     rc, out, err, wall = sh(cmd, timeout, mem_gb=u.mem)
@@ -195,6 +201,9 @@ def run_unit(u, scratch, tier="quick", use_cache=True, keep=False):
         if o["status"] == "FAILURE" and "trace" in r:
             o["trace"] = compact_trace(r["trace"], scratch)
         obs.append(o)
+    if u.ignore_desc:
+        res["ignored_obligations"] = [o["name"] + ": " + o["desc"][:80] for o in obs if any(re.search(p_, o["desc"]) for p_ in u.ignore_desc)]
+        obs = [o for o in obs if not any(re.search(p_, o["desc"]) for p_ in u.ignore_desc)]
     res["obligations"] = obs
     res["status"] = "done"
     # counterexample traces: separate runs restricted to one failed obligation each (a full --trace run exhausted memory)
